@@ -563,6 +563,8 @@ def run_C12(ctx):
                 else:
                     x = rb(rng, rng.randrange(0, 3 * bs + 2))
                     a, b = f"oneshot {hx(x)}", f"oneshotb {hx(x)} {hx(rb_nz(rng, len(x)))}"
+                # ... and the `*_inout` entry points themselves (a mode type may override them), in place against two buffers
+                a, b = reroute(rng, [a], 0.25)[0], reroute(rng, [b], 0.25)[0]
                 i = len(c.ops)
                 c.ops += ["use 0", a, "ivstate", "use 1", b, "ivstate"]
                 c.meta["pairs"].append((i + 1, i + 4))
